@@ -115,7 +115,7 @@ func init() {
 		"Decided (structure only): (inval) every backend data mutation reachable from a procedure handler (File.Write/WriteAt/WriteString/Truncate, FS.Truncate, truncating opens) is followed on every path from its success edge to the reply by AttrCache.Invalidate of the same path, before any attribute-cache read, also across wrapper calls; (wcount) the WRITE3resok count word derives from the integer the backend write returned and not from the request; (rdata) the READ3resok count, opaque length and bytes are one slice that derives from the backend ReadAt result, clamped by TransferSize and by size-offset; (eof) the eof word is selected by a comparison of offset+len(data) against the post-read size with >=; (trunc-first) SETATTR applies size before other attributes. Not decided: byte-for-byte equality with a file model, the numeric value of min(...), sparse/overlapping write histories, offsets near 2^63 — these quantify over run-time values and belong to a model-based technique.",
 		commonAssume, runC01)
 	register("C02",
-		"Decided (structure only): (inval) after every namespace mutation the server completes (Create, OpenFile|O_CREATE, Mkdir(All), Symlink, Remove(All), Rename) every path from the mutation's success edge to the handler's reply invalidates the attribute-cache entry of each affected child path (which also removes a negative entry) and of each parent directory, and the directory-cache entry of each parent (nil-guard idiom accepted), before any cache read on that path; obligations a function leaves open move to its callers with parameters substituted; (neg-put) negative entries are created only on an is-not-exist edge of a backend Lstat failure; (neg-hit) a negative hit is reported as not-exist; (dir-put) DirCache.Put stores only what the backend Readdir just returned. Not decided: agreement of every reply with a POSIX tree model, staleness of descendants after renaming a directory, TTL behaviour.",
+		"Decided (structure only): (inval) after every namespace mutation the server completes (Create, OpenFile|O_CREATE, Mkdir(All), Symlink, Remove(All), Rename) every path from the mutation's success edge to the handler's reply invalidates the attribute-cache entry of each affected child path (which also removes a negative entry) and of each parent directory, and the directory-cache entry of each parent (nil-guard idiom accepted), before any cache read on that path; obligations a function leaves open move to its callers with parameters substituted; (neg-put) negative entries are created only on an is-not-exist edge of a backend Lstat failure; (neg-hit) a negative hit is reported as not-exist; (dir-put) DirCache.Put stores only what the backend Readdir just returned. after a Rename additionally the whole cached subtree at or below the old and the new name is dropped from both caches (InvalidateTree), since a renamed directory takes its descendants with it. Not decided: agreement of every reply with a POSIX tree model, TTL behaviour.",
 		commonAssume, runC02)
 }
 
@@ -139,6 +139,8 @@ func runC02(c *Ctx) {
 	c.rule("C02", "inval", "T-PAIR: namespace mutation ⇒ AttrCache.Invalidate(child), AttrCache.Invalidate(parent), DirCache.Invalidate(parent) on every path from the success edge to the reply, before any cache read; lifted through wrappers", 15)
 	runInval(c, "C02", "ns")
 	runC02Extra(c)
+	// the node behind a handle is a per-handle cache of the object's type (shared with C05)
+	runC05Atomic(c, "C02")
 }
 
 func runInval(c *Ctx, prop, family string) {
@@ -165,6 +167,8 @@ func runInval(c *Ctx, prop, family string) {
 	}
 	attrInv := "(*" + absnfsPath + ".AttrCache).Invalidate"
 	dirInv := "(*" + absnfsPath + ".DirCache).Invalidate"
+	attrTree := "(*" + absnfsPath + ".AttrCache).InvalidateTree"
+	dirTree := "(*" + absnfsPath + ".DirCache).InvalidateTree"
 
 	for _, m := range p.enumerateMutations(reach) {
 		if (family == "data") != (m.Class == "data") {
@@ -186,7 +190,12 @@ func runInval(c *Ctx, prop, family string) {
 			if len(m.Paths) > 1 {
 				tag = fmt.Sprintf("[%d]", i)
 			}
-			closers = append(closers, closerSpec{Name: "attr(child" + tag + ")", Callee: attrInv, Arg: child})
+			closers = append(closers, closerSpec{Name: "attr(child" + tag + ")", Callee: attrInv, Alt: attrTree, Arg: child})
+			if bc := asBackendCall(m.Call); family == "ns" && bc != nil && bc.Method == "Rename" {
+				// a renamed directory takes its subtree with it: everything cached at or below both names goes
+				closers = append(closers, closerSpec{Name: "attr-subtree(child" + tag + ")", Callee: attrTree, Arg: child})
+				closers = append(closers, closerSpec{Name: "dir-subtree(child" + tag + ")", Callee: dirTree, Arg: child, NilOK: true})
+			}
 			if family == "ns" {
 				par := child.parentOf()
 				if par == nil {
@@ -249,7 +258,7 @@ func (p *Prog) checkCloser(fn *ssa.Function, call ssa.CallInstruction, cl closer
 			return false
 		}
 		args := ci.Common().Args
-		if qualFn(f) == cl.Callee {
+		if qualFn(f) == cl.Callee || cl.Alt != "" && qualFn(f) == cl.Alt {
 			return len(args) >= 2 && mkExpr(args[1]).equal(want)
 		}
 		// helper summary: an in-package callee that performs the invalidation of a
@@ -273,7 +282,7 @@ func (p *Prog) checkCloser(fn *ssa.Function, call ssa.CallInstruction, cl closer
 				return false
 			}
 			a2 := c2.Common().Args
-			if qualFn(f2) == cl.Callee {
+			if qualFn(f2) == cl.Callee || cl.Alt != "" && qualFn(f2) == cl.Alt {
 				return len(a2) >= 2 && mkExpr(a2[1]).subst(m).equal(want)
 			}
 			return false
